@@ -787,7 +787,9 @@ def race_scan(ctx, ps, out, mode):
             i = txt.index("WARNING: DATA RACE")
             where = [ln.strip() for ln in txt[i:i + 3000].splitlines() if "pion/sctp." in ln][:2]
             ctx.add_violation("C20_DataRace", scen, where or ["race detector report"])
-            p.returncode = 0 if p.returncode == 66 else p.returncode
+            # the race detector makes the process exit 66, or the test fail with "race detected during execution of test"
+            if p.returncode == 66 or ("race detected during execution of test" in txt and "panic:" not in txt and "VF-HANG" not in txt):
+                p.returncode = 0
 
 
 @check("C20", ["C20_"])
@@ -823,7 +825,12 @@ def c20(ctx):
     ps = L.run_shards(binp, "mw-shut", mw, 4 if ctx.quick else 16, {"VF_N": 25 if ctx.quick else 120, "VF_SEED": ctx.seed})
     race_scan(ctx, ps, mw, "mw-shut")
     crash_as_violation(ctx, ps, mw, "mw-shut", "C20_Panic")
-    ctx.validate(sorted(glob.glob(os.path.join(mw, "mw-rt-*.ndjson")) + glob.glob(os.path.join(mw, "mw-shut-*.ndjson"))), module="WriteSeqTrace", cfg="WriteSeqTrace.cfg")
+    # ... and writers entering / blocked in WriteSCTP while Close, Abort, Shutdown or a transport failure tears it down
+    ps = L.run_shards(binp, "mw-close", mw, 4 if ctx.quick else 16, {"VF_N": 40 if ctx.quick else 200, "VF_SEED": ctx.seed})
+    race_scan(ctx, ps, mw, "mw-close")
+    crash_as_violation(ctx, ps, mw, "mw-close", "C20_Panic")
+    ctx.validate(sorted(glob.glob(os.path.join(mw, "mw-rt-*.ndjson")) + glob.glob(os.path.join(mw, "mw-shut-*.ndjson")) + glob.glob(os.path.join(mw, "mw-close-*.ndjson"))),
+                 module="WriteSeqTrace", cfg="WriteSeqTrace.cfg")
     ctx.distinct.add(("multi-writer-one-stream",))
     ctx.notes.append("mw-rt: 2-4 goroutines per stream write concurrently on the same stream of a blocking-write association with 0.5-15 ms deadlines "
                      "against a slow reader, in REAL time (a writer waiting on the stream's write mutex is not durably blocked for testing/synctest); "
